@@ -1,10 +1,10 @@
 SPECIFICATION Spec
 CONSTANTS
   Chains <- Pairs
-  RowVals <- RowsSmall
+  RowVals <- RowsTiny
   MaxRows = 3
   MaxEmpty = 0
   EofModes <- BoolF
   SSCarry = TRUE
-INVARIANTS ChunkingInvariant PrefixOK TypeOK
+INVARIANTS ChunkingInvariant PrefixOK SplitInvariant TypeOK
 CHECK_DEADLOCK FALSE
